@@ -219,7 +219,7 @@ def t2_assign_special_int (P : Policy) (Ty : IntTy) (v : Int) (c : Cls) (dir : D
     (v, V_NAN.orUnrep)
 -- [end]
 
-/-- `assign_nan` (checked_inlines.hh:648) -/
+/-- `assign_nan` (checked_inlines.hh:650) -/
 -- [t2:assign_nan]
 def t2_assign_nan (P : Policy) (Ty : IntTy) (to : Int) (r : Result) : Int × Result :=
   let to : Int := (t2_assign_special_int P Ty to Cls.nan Dir.ignore).1
@@ -893,7 +893,7 @@ def t2_abs_generic (To_Policy : Policy) (From_Policy : Policy) (To : IntTy) (Fro
 def t2_abs (To_Policy : Policy) (From_Policy : Policy) (To : IntTy) (to : Int) (x : Int) (dir : Dir) : Int × Result :=
   if To.signed then t2_abs_generic To_Policy From_Policy To To to x dir else t2_assign_unsigned_int_unsigned_int To_Policy From_Policy To To to x dir
 
-/-- `sgn_generic` (checked_inlines.hh:449) -/
+/-- `sgn_generic` (checked_inlines.hh:451) -/
 -- [t2:sgn_generic]
 def t2_sgn_generic (P : Policy) (Ty : IntTy) (x : Int) : Rel :=
   if decide (x > 0) then
@@ -905,7 +905,7 @@ def t2_sgn_generic (P : Policy) (Ty : IntTy) (x : Int) : Rel :=
       Rel.LT
 -- [end]
 
-/-- `cmp_generic` (checked_inlines.hh:636) -/
+/-- `cmp_generic` (checked_inlines.hh:638) -/
 -- [t2:cmp_generic]
 def t2_cmp_generic (P1 : Policy) (P2 : Policy) (Type1 : IntTy) (Type2 : IntTy) (x : Int) (y : Int) : Rel :=
   if decide (y < x) then
